@@ -378,11 +378,11 @@ def replay(ctx, data):
 LEVEL_TEXT = ('Machine-checked proof (Coq 8.16.1) over an executable model of Pony\'s optimistic concurrency control (read/write bits, optimistic '
               'WHERE criteria, rowcount check, commit/rollback) for one shared object: for all programs of reads/writes/commit, any number of sessions '
               'and ALL interleavings (induction over the schedule), a session\'s update is applied iff every protected attribute it observed from '
-              'the database still holds the observed value; otherwise it ends in OptimisticCheckError and the row is untouched. Every run replays '
+              'the database still holds the observed value; otherwise it ends in OptimisticCheckError and the row is untouched; and (C20_serial) a successful commit of a session whose reads are all protected leaves the row exactly as if that session had run alone at commit time. Every run replays '
               'all interleavings of pairs (and seeded triples) of short programs on real threaded db_sessions over a SQLite file and compares rows, '
               'outcomes, observed values and captured UPDATE statements with the model by vm_compute.')
 LEVEL_NOTE = ('Partial: single shared row (multi-object atomicity is the database transaction, C17); flushes only at commit; for_update exemption '
-              'tested directly, not in the schedule model; serial-equivalence is checked by the search oracle, not proved; PostgreSQL not executed. '
+              'tested directly, not in the schedule model; serial equivalence is proved for sessions whose reads are all protected (optimistic opt-outs are the stated exception); PostgreSQL not executed. '
               'Trusted: Coq kernel + vm_compute; the thread scheduler harness and SQL capture; SQLite statement atomicity.')
 TECHNIQUE = 'Coq invariant proof over all schedules of an executable model; vm_compute correspondence with real threaded sessions on every enumerated interleaving; property oracle search'
 DESIGN_REF = 'DESIGN.md section 5, C20'
